@@ -12,7 +12,7 @@ _E, _OE = "self.elts", "old_self.elts"
 
 REG.contract(
     "dns.btree._Node.insert_nonfull#leaf",
-    target="dns.btree._Node.insert_nonfull", verify_only=True, elements_are_keys=True,
+    target="dns.btree._Node.insert_nonfull", verify_only=True, elements_are_keys=True, no_native=True,
     # ghost p: the place of the key in the sorted element list
     params={"self": LEAF, "element": T.int, "in_order": T.bool, "p": T.int},
     requires=["self.t >= 3", f"len({_E}) < 2 * self.t - 1", _SORTED(_E),
@@ -37,7 +37,7 @@ REG.contract(
 
 REG.contract(
     "dns.btree._Node.split#leaf",
-    target="dns.btree._Node.split", verify_only=True, elements_are_keys=True,
+    target="dns.btree._Node.split", verify_only=True, elements_are_keys=True, no_native=True,
     params={"self": LEAF},
     requires=["self.t >= 3", f"len({_E}) == 2 * self.t - 1", _SORTED(_E)],
     modifies={"self.elts": None},
